@@ -218,4 +218,47 @@ example : ∀ (r : Nat) (hr : r < (#[#[some (1/4 : ℚ)], #[some (1/2 : ℚ)]] :
   · exact ⟨1/4, by simp, by norm_num⟩
   · exact ⟨1/2, by simp, by norm_num⟩
 
+/-- column `j` of the normalised table holds no null and only non-negative values -/
+def NoNullCol (inp : ForestIn α) (j : Nat) : Prop :=
+  j < inp.names.length ∧ ∀ (r : Nat) (hr : r < inp.raw.size), ∃ v, (inp.raw[r][j]?).join = some v ∧ 0 ≤ v
+
+theorem sortAscStable_singleton (j : Nat) : sortAscStable (fun a b => decide (a < b)) [j] = [j] := by
+  simp [sortAscStable, insertAsc]
+
+/-- **C07, "nulls occur only in columns that had nulls", per-column patching, end to end from `Forest.__init__`.**  The table
+`build_table` assembles under the plan of `NoClustering` (the first column's microtable, every other column's patched on): in the place
+of a column that holds no null (and, as every normalised column, no negative value) there is never a null — whatever the data, the ids,
+the salt, the parameters and every RNG stream. Each cluster is a single column (`C07_no_nulls_single_column_init`), and patching moves
+cells only under their own column (`buildTable_cells_for`). -/
+theorem C07_noClustering_no_nulls (E : Env α) (inp : ForestIn α) (F : Forest α) (hinit : Forest.init E inp = .ok F)
+    (hn : 0 < inp.raw.size) (hlt : 0 ≤ F.ctx.ap.supp.lt) (convs : List (Conv α)) (isIntegral : List Bool) (entropy : List α) (threshRel : α)
+    (streams : List (List Nat × List (Draw α))) (s s' : List (Draw α)) (res : MTable (Cell α) α)
+    (h : (buildTable E F convs isIntegral entropy threshRel (noClusteringPlan inp.names.length) streams).run s = .ok (res, s')) :
+    ∀ row ∈ res.1, row.length = res.2.length ∧
+      ∀ (k : Nat) (hk : k < res.2.length), NoNullCol inp res.2[k] → (row.getD k default).1 ≠ .null := by
+  have hM : MaterializeOKFor E F convs (fun cols => ∃ j, cols = [j]) (fun j cell => NoNullCol inp j → cell.1 ≠ .null) := by
+    intro cols ⟨j, hj⟩ streams s s' res hm
+    subst hj
+    obtain ⟨hcomb, drawn, left, hmt⟩ := materializeGM_tree E F convs [j] streams s s' res hm
+    rw [sortAscStable_singleton] at hcomb hmt
+    have hlenT := materializeTree_stringBacked E inp F hinit hn hlt convs [j] (by simp) _ _ res.1 drawn left hmt
+    intro row hrow
+    have hlen : row.length = 1 := by simpa using (hlenT row hrow).1
+    rw [hcomb]
+    refine ⟨by simpa using hlen, fun k hk hcol => ?_⟩
+    have hk0 : k = 0 := by simpa using hk
+    subst hk0
+    have e : row.getD 0 default = row[0]'(by omega) := by simp [List.getD_eq_getElem?_getD, hlen]
+    rw [e]
+    simp only [List.getElem_cons_zero] at hcol
+    exact C07_no_nulls_single_column_init E inp F hinit hn hlt convs j hcol.1 hcol.2 _ _ res.1 drawn left hmt row hrow _
+      (List.getElem_mem _)
+  have := buildTable_cells_for E F convs isIntegral entropy threshRel (noClusteringPlan inp.names.length) streams s s' res
+    (fun cols => ∃ j, cols = [j]) _ ⟨0, rfl⟩ (by
+      intro dc hdc
+      simp only [noClusteringPlan, List.mem_map] at hdc
+      obtain ⟨i, _, rfl⟩ := hdc
+      exact ⟨i + 1, rfl⟩) hM h
+  exact this
+
 end
